@@ -437,18 +437,36 @@ func (s *HASyncer) broadcastLoop() {
 
 // broadcastToClients sends a message to all connected SSE clients.
 func (s *HASyncer) broadcastToClients(msg *SyncMessage) {
-	s.sseClientsMu.RLock()
-	defer s.sseClientsMu.RUnlock()
+	var slow []string
 
+	s.sseClientsMu.RLock()
 	for clientID, ch := range s.sseClients {
 		select {
 		case ch <- msg:
 		default:
-			s.logger.Warn("Client channel full, dropping message",
+			slow = append(slow, clientID)
+		}
+	}
+	s.sseClientsMu.RUnlock()
+
+	if len(slow) == 0 {
+		return
+	}
+
+	// A client whose channel is full has just missed a message. Carrying on
+	// would leave its table different from ours with nothing to repair it, so
+	// end its stream instead: the standby reconnects and performs a full sync.
+	s.sseClientsMu.Lock()
+	for _, clientID := range slow {
+		if ch, ok := s.sseClients[clientID]; ok {
+			close(ch)
+			delete(s.sseClients, clientID)
+			s.logger.Warn("Client channel full, closing stream to force a resync",
 				zap.String("client", clientID),
 			)
 		}
 	}
+	s.sseClientsMu.Unlock()
 }
 
 // PushChange queues a session change to be pushed to standby nodes.
